@@ -120,6 +120,8 @@ class Extractor:
             return [["for", self.canon(s.iter, at), body]]
         if isinstance(s, (ast.With, ast.AsyncWith)):
             return self.block(s.body)
+        if isinstance(s, ast.Try) and len(s.handlers) == 1 and isinstance(s.handlers[0].type, ast.Name) and s.handlers[0].type.id.startswith("__InlineReturn"):
+            return self.block(s.body)
         if isinstance(s, ast.Try):
             out = self.block(s.body)
             for h in s.handlers:
@@ -164,6 +166,8 @@ class Extractor:
             return [["continue"]]
         if isinstance(s, ast.Break):
             return [["break"]]
+        if isinstance(s, ast.Raise) and isinstance(s.exc, ast.Name) and s.exc.id.startswith("__InlineReturn"):
+            return [["return", ""]]
         if isinstance(s, ast.Raise):
             e = s.exc.func if isinstance(s.exc, ast.Call) else s.exc
             return [["raise", dotted(e) or "" if e is not None else ""]]
